@@ -19,6 +19,17 @@ use std::marker::PhantomData;
 use std::sync::Arc;
 pub mod thread { #[verifier::external_body] #[verifier::reject_recursive_types(T)] pub struct JoinHandle<T> { _p: core::marker::PhantomData<T> } }
 pub trait RootSink<T> { fn merge(&self, entry: T); }
+// std atomics (stand-ins): what another thread stored is not known - loads / swaps answer arbitrarily
+#[verifier::external_body] pub struct AtomicBool { _p: u8 }
+#[verifier::external_body] pub struct AtomicUsize { _p: u8 }
+#[verifier::external_body] pub struct AtomicU64 { _p: u8 }
+pub enum Ordering { Relaxed, Release, Acquire, AcqRel, SeqCst }
+impl AtomicBool {
+    #[verifier::external_body] pub fn new(v: bool) -> AtomicBool { unimplemented!() }
+    #[verifier::external_body] pub fn load(&self, o: Ordering) -> bool { unimplemented!() }
+    #[verifier::external_body] pub fn store(&self, v: bool, o: Ordering) { unimplemented!() }
+    #[verifier::external_body] pub fn swap(&self, v: bool, o: Ordering) -> bool { unimplemented!() }
+}
 // std::sync::mpsc::Sender (stand-in): a send is witnessed; Err means the receiver (the worker) is gone
 #[verifier::external_body] #[verifier::reject_recursive_types(M)] pub struct Sender<M> { _p: core::marker::PhantomData<M> }
 #[verifier::external_body] #[verifier::reject_recursive_types(M)] pub struct SendError<M> { _p: core::marker::PhantomData<M> }
